@@ -129,4 +129,19 @@ Proof.
   exists f0. intros f Hf. eexists. rewrite (H f Hf). reflexivity.
 Qed.
 
+(* the implicit return value, parser half: `e` as the last statement and `ret e` carry the same tree *)
+Theorem nf_tail_statement e : pt_valid T (TK KNewline) = false -> pt_valid T (TK KDo) = false ->
+  lower_ok e = true -> dwf e = true ->
+  forall p p' rest rest' ov ov' b b', exists f0, forall f, f0 <= f -> exists c c',
+    go T (S f) (QStmt (mkctx p (pp e ++ TK KNewline :: rest) ov b)) = Ok (RS (SExpr (emb e)) c)
+    /\ go T (S f) (QStmt (mkctx p' (TK KRet :: pp e ++ TK KNewline :: rest') ov' b')) = Ok (RS (SRet (Some (emb e))) c')
+    /\ tail_ret [nf_s (strip_s (SExpr (emb e)))] = tail_ret [nf_s (strip_s (SRet (Some (emb e))))].
+Proof.
+  intros Hnl Hdo L D p p' rest rest' ov ov' b b'.
+  destruct (expr_stmt_roundtrip T OK Hnl e L D p rest ov b) as [f1 H1].
+  destruct (ret_roundtrip T OK Hnl e L D p' rest' ov' b') as [f2 H2].
+  exists (Nat.max f1 f2). intros f Hf. eexists. eexists.
+  rewrite (H1 f ltac:(lia)), (H2 f ltac:(lia)). repeat split.
+Qed.
+
 End NF.
